@@ -943,7 +943,9 @@ func c19Enumerate(thorough bool) *c19Enum {
 			e.NoAlpha = append(e.NoAlpha, s.ID+" ("+s.F.Type.String()+")")
 		}
 		for _, m := range ms {
-			e.Singles = append(e.Singles, c19Build(m))
+			c := c19Build(m)
+			c.Desc += " at " + c19Pattern(c19StepsString(c19StepsOf(c19Plain(s.Path))))
+			e.Singles = append(e.Singles, c)
 		}
 	}
 	// every single-field configuration once more as a YAML file (DumpConfig
